@@ -596,18 +596,36 @@ impl<P: RuntimeProvider + Send + Sync> ZoneHandler for InMemoryZoneHandler<P> {
 
         let closest_proof = inner.closest_nsec(name);
 
-        // we need the wildcard proof, but make sure that it's still part of the zone.
-        let wildcard = name.base_name();
+        // we need the wildcard proof, i.e. the NSEC record that covers the wildcard at the closest
+        // encloser (RFC 4035 3.1.3.2), but make sure that it's still part of the zone. The closest
+        // encloser is the longest ancestor of the name that exists in the zone: it, or a name below
+        // it, owns a record. Such names follow it directly in the canonical order.
         let origin = self.origin();
-        let wildcard = if origin.zone_of(&wildcard) {
-            wildcard
+        let mut next_closer = name.clone();
+        while origin.zone_of(&next_closer.base_name()) {
+            let parent = next_closer.base_name();
+            let first_key = RrKey::new(parent.clone(), RecordType::ZERO);
+            let mut at_or_below = inner.records.range(first_key..);
+            if at_or_below
+                .next()
+                .is_some_and(|(key, _)| parent.zone_of(&key.name))
+            {
+                break;
+            }
+            next_closer = parent;
+        }
+        let wildcard = if origin.zone_of(&next_closer.base_name()) {
+            next_closer.into_wildcard()
         } else {
             origin.clone()
         };
 
-        // don't duplicate the record...
+        // don't duplicate the record... and if the wildcard exists there is nothing to deny: a
+        // wildcard expansion only needs the proof that there is no closer match (RFC 4035 3.1.3.3)
         let wildcard_proof = if wildcard != *name {
-            inner.closest_nsec(&wildcard)
+            inner
+                .closest_nsec(&wildcard)
+                .filter(|rr_set| wildcard != LowerName::from(rr_set.name()))
         } else {
             None
         };
